@@ -431,6 +431,7 @@ func runC14(w *eng.W) {
 			}
 		}
 	}
+	neighbourTexts(w, "neighbour-code-points", do)
 	// scanner differential on glued lexemes (no separator at all) and on raw bytes
 	for l := 1; l <= 3; l++ {
 		seqsSharded(w, len(SigmaFull), l, func(idx []int) {
